@@ -69,7 +69,7 @@ let () =
      unzl   raw>inflated pairs (protocol 1, base64 mode): what the REAL zlib inflater made of a payload
      result OUT=<canonical tokens the receiver wrote>|SAVED=<path:md5,...>|END=<D:names | F | U>|V=<0|1>
    fault_sender cfg table dflt entries acks
-     entries as in transfer_transcript
+     entries id;isdir;rel;content;md5;z;sizes;profit;steps;prefinal  (the first ten fields of transfer_transcript's entries)
      acks   delivered to the real sender: I:<n> | A:<len>:<step> | S:<hex raw>:<hex json name | !>:<json size> | X:<hex names joined by +> | K | F | O
      result OUT=<canonical tokens the sender wrote>|END=<D:names | F | U>
 
@@ -165,7 +165,10 @@ let () =
           | ["F"] -> Transfer.TrFail
           | _ -> Transfer.TrSuccInt N0 (* nothing the receiver ever expects: it fails on it, as the real one does on an unparsable line *)
         ) (ft_split ',' msgs) in
-      let ((st, outs), saved) = FaultTie.ft_receive ft_md5 ft_deq zdecomp unzl cfg dest f0 [] ms in
+      (* the resume exchange and the archive stream are not entered by the runs handed to this evaluator (the
+         harness judges those by its direct oracles): their abstract external functions are never consulted *)
+      let hx (_ : n list) : n list = [] and aparse (_ : n list) = None in
+      let ((st, outs), saved) = FaultTie.ft_receive ft_md5 ft_deq zdecomp unzl hx aparse cfg dest f0 [] ms in
       let toks = ft_canon_r (List.filter_map ft_rtoken outs) in
       let nd = List.length dest in
       let rec drop k l = if k <= 0 then l else match l with [] -> [] | _ :: t -> drop (k - 1) t in
@@ -186,18 +189,15 @@ let () =
                 | "X" :: names -> Some (i, String.concat ":" names)
                 | _ -> first_exit (i + 1) tl) in
           match st.Transfer.rs_phase, first_exit 0 toks with
-          | Transfer.RpUnmodelled, _ -> "U"
           | _, Some (i, names) ->
             let rec take k l = if k <= 0 then [] else match l with [] -> [] | x :: t -> x :: take (k - 1) t in
-            let (stp, _) = FaultTie.ft_feed ft_md5 ft_deq zdecomp unzl cfg dest (Transfer.tr_receiver_init f0 []) (take i ms) in
+            let (stp, _) = FaultTie.ft_feed ft_md5 ft_deq zdecomp unzl hx aparse cfg dest (Transfer.tr_receiver_init f0 []) (take i ms) in
             (match stp.Transfer.rs_phase with
              | Transfer.RpFail | Transfer.RpDone -> "F"
-             | Transfer.RpUnmodelled -> "U"
              | _ -> "D:" ^ names)
           | _, None -> "F"
         end else (match st.Transfer.rs_phase with
             | Transfer.RpDone -> "D:" ^ ft_hexs st.Transfer.rs_names
-            | Transfer.RpUnmodelled -> "U"
             | _ -> "F") in
       Printf.sprintf "OUT=%s|SAVED=%s|END=%s|V=%s" (String.concat " " toks) (String.concat "," sv) fin (str_of_bool v)
     | _ -> "?args");
@@ -218,9 +218,10 @@ let () =
               if z <> "-" then ztab := (content, bytes_of_hex z) :: !ztab
             end;
             ({ Transfer.te_id = z_of_string id; te_rel = List.map bytes_of_hex (ft_split '.' rel); te_isdir = isdir;
-               te_chunks = reads content },
+               te_chunks = reads content; te_subs = [] },
              { Transfer.sc_sizes = List.map (fun x -> ft_nat (int_of_string x)) (ft_split '.' sizes); sc_dflt = dflt;
-               sc_profit = bool_of profit; sc_steps = []; sc_prefinal = [] })
+               sc_profit = bool_of profit; sc_steps = []; sc_prefinal = [];
+               sc_hstops = None; sc_rsizes = []; sc_rdflt = O; sc_wsizes = []; sc_wdflt = S O })
           | _ -> failwith "entry") (ft_split ',' entries) in
       let h c = match List.assoc_opt c !htab with Some d -> d | None -> ft_md5 c in
       let poison = List.map n_of_int [33; 110; 111; 122; 33] in
@@ -228,7 +229,8 @@ let () =
         let c = List.concat chunks in
         match List.assoc_opt c !ztab with Some z -> [z] | None -> if c = [] then [] else [poison] in
       let zl x = x in
-      let step st m = Transfer.tr_sender h ft_deq zcomp zl cfg st m in
+      let hx (_ : n list) : n list = [] and ahdr _ _ : n list = [] in
+      let step st m = Transfer.tr_sender h ft_deq zcomp zl hx ahdr cfg st m in
       let (st0, outs0) = Transfer.tr_sender_init cfg ess in
       let st = ref st0 and outs = ref [outs0] in
       (* tsz: an EXIT line that arrives while sendFiles is still at work ends it with a "remote exit" error,
@@ -239,7 +241,7 @@ let () =
           (match String.split_on_char ':' t with
            | "X" :: names when !shown = None && not cfg.Transfer.tc_upload ->
              (match !st.Transfer.ss_phase with
-              | Transfer.SpFail | Transfer.SpDone | Transfer.SpUnmodelled -> ()
+              | Transfer.SpFail | Transfer.SpDone -> ()
               | _ -> shown := Some (String.concat ":" names))
            | _ -> ());
           let m : n list Transfer.tr_msg = match String.split_on_char ':' t with
@@ -267,10 +269,8 @@ let () =
         if cfg.Transfer.tc_upload then
           (match !st.Transfer.ss_phase with
            | Transfer.SpDone -> "D:" ^ ft_hexs !st.Transfer.ss_names
-           | Transfer.SpUnmodelled -> "U"
            | _ -> "F")
         else (match !shown, !st.Transfer.ss_phase with
-            | _, Transfer.SpUnmodelled -> "U"
             | Some names, _ -> "D:" ^ names
             | None, _ -> "F") in
       Printf.sprintf "OUT=%s|END=%s" (String.concat " " toks) fin
